@@ -907,6 +907,17 @@ def make_jobs(ck, rng, params=None):
                         r.range(1, 10 ** 6), ev, 1 + len(hist), g_small, hist=hist, tag="reuse-multiquery")
                 job(planner, "dublen", 0, "def", r.choice([0, 1]), 3, r.range(1, 10 ** 6), min(ev, 300), 3, f2bits(0.1), hist=r.choice(["or", "ro"]),
                     tag="reuse-multiquery")
+            # (e) samples on a lattice (pseudo-parameter grid=<n>: a user sampler that rounds to multiples of 1/n): exact distance and
+            # cost ties are systematic, the order among tied neighbours is whatever the nearest-neighbour structure returns
+            if planner not in ("QRRTStar", "QMPStar"):
+                job(planner, "len" if not general else r.choice(["len", "sci", "multi"]), r.range(1, 2), "def", r.choice([0, 1, 4]), 2, r.range(1, 10 ** 6), ev, 2,
+                    f2bits(0.07), hist="c", cfg="grid=%d" % r.choice([8, 16]), tag="lattice")
+            if planner in ("RRTstar", "InformedRRTstar", "SORRTstar"):
+                # the classic choose-parent loop with a symmetric objective that is not the path length, on a lattice: finding F340
+                # (RRTstar.cpp caches motion->incCost for nmotion after a tied neighbour may already have become the parent)
+                for _ in range(3 if ck.tier == "quick" else 8):
+                    job(planner, r.choice(["sci", "sci", "multi"]), r.range(1, 2), "def", r.choice([0, 1, 4]), 2, r.range(1, 10 ** 6), 800, 2, f2bits(0.07),
+                        hist="c", cfg="delay_collision_checking=0,range=2,grid=%d" % r.choice([8, 16]), tag="classic-lattice-symmetric")
             if planner in FROMDATA:
                 # the roadmap exported with getPlannerData() and loaded into a fresh planner (public constructor)
                 for hist, obj in (("d", "len"), (r.choice(["dc", "cd", "dr"]), r.choice(["sci", "work", "multi"])), (r.choice(["do", "od", "dO"]), "len")):
@@ -919,6 +930,19 @@ def job_line(j):
     base = "run %s %s %d %s %d %d %d %d %d %s %s" % (j["planner"], j["obj"], j["field"], j["thr"], j["env"], j["dim"], j["seed"], j["evals"],
                                                       j["solves"], j["gthr"], j.get("hist") or str(j.get("clear", 0)))
     return base + (" " + j["cfg"] if j.get("cfg") else "")
+
+
+def job_from_line(line):
+    """a part-C job from its `run ...` line (corpus files, replays)."""
+    t = line.split()
+    cfg = t[12] if len(t) > 12 and t[12] != "-" else None
+    tag = None
+    if cfg and "grid=" in cfg:
+        tag = "classic-lattice-symmetric" if "delay_collision_checking=0" in cfg else "lattice"
+    elif cfg:
+        tag = "cfg-mix"
+    return {"planner": t[1], "obj": t[2], "field": int(t[3]), "thr": t[4], "env": int(t[5]), "dim": int(t[6]), "seed": int(t[7]), "evals": int(t[8]),
+            "solves": int(t[9]), "gthr": t[10], "clear": 0, "hist": t[11] if len(t) > 11 else None, "cfg": cfg, "tag": tag}
 
 
 RUN_ENV = {"ASAN_OPTIONS": "detect_leaks=0:abort_on_error=0:exitcode=99"}   # planner leaks are not C04's subject
@@ -993,6 +1017,8 @@ def judge_runs(ck, hbin, jobs):
                 continue
             seen.add(kind)
             rec = {"engine": "soln", "part": "C", "kind": kind, "planner": job["planner"], "objective": job["obj"], "what": what}
+            if job.get("tag"):
+                rec["class"] = job["tag"]        # the input class of the run (non-default parameters, re-use history, lattice samples)
             new = ck.report(rec, script=["solnrun", job_line(job)], expected=None, observed=out[:60], engine="soln")
             if new:
                 per_kind[kind] += 1            # known findings do not use up the budget
@@ -1428,6 +1454,10 @@ def run(ck):
     params = load_params(ck, hbin)
     ck.extra_cov["planner_params_driven"] = {k: [p[0] for p in v] for k, v in params.items()}
     jobs = make_jobs(ck, ck.rng.fork("runs"), params)
+    # minimised planner runs kept in the corpus come first
+    cjobs = [job_from_line(l) for _n, sc in corpus() if sc and sc[0] == "solnrun" for l in sc[1:] if l.startswith("run ")]
+    ck.count("corpus-planner-runs", len(cjobs))
+    jobs = cjobs + jobs
     judge_runs(ck, hbin, jobs)
     fjobs = make_fmt_jobs(ck, ck.rng.fork("fmt"))
     judge_fmt(ck, hbin, fjobs)
@@ -1478,8 +1508,7 @@ def replay(ck, data):
         out, rc, err = ck.run_bin(hbin, script, timeout=300, env=RUN_ENV)
         for l in out or []:
             print(l[:400])
-        t = script[1].split()
-        job = {"planner": t[1], "obj": t[2]}
+        job = job_from_line(script[1])
         fails, stats, _ = oracle_run(job, out or [])
         want = (data.get("record") or {}).get("kind")
         hit = [f for f in fails if want is None or f[0] == want]
